@@ -587,6 +587,13 @@ func (k *lcCase) run(label string) {
 			for i := 0; i < cy.outN; i++ {
 				c.Raw(fmt.Sprintf("PRIVMSG #h :%d", i))
 			}
+		default:
+			// a line of the inbound backlog "c<cycle>n<k>": the server sent it on the connection
+			// of that cycle; it may only be delivered there, never on a later connection
+			var lc, ln int
+			if n, _ := fmt.Sscanf(l.Text(), "c%dn%d", &lc, &ln); n == 2 && lc != int(ci) {
+				k.unfresh("line %d the server sent on connection %d was delivered on connection %d", ln, lc+1, ci+1)
+			}
 		}
 	})
 	conn.HandleFunc(client.DISCONNECTED, func(c *client.Conn, l *client.Line) {
@@ -800,7 +807,7 @@ func (k *lcCase) cycleBody(i int) bool {
 			for sent < cy.inN {
 				var b strings.Builder
 				for j := 0; j < per && sent < cy.inN; j++ {
-					fmt.Fprintf(&b, ":a!b@c PRIVMSG vbot :n%d\r\n", sent)
+					fmt.Fprintf(&b, ":a!b@c PRIVMSG vbot :c%dn%d\r\n", i, sent)
 					sent++
 				}
 				if s.write(b.String()) != nil {
